@@ -33,6 +33,9 @@ ERRORS = {
     "branch-out-of-range": "bra far_away\n.dw 0,0,0,0,0,0,0,0,0,0,0,0,0,0,0,0,0,0,0,0,0,0,0,0,0,0,0,0,0,0,0,0,0,0,0,0,0,0,0,0,0,0,0,0,0,0,0,0,0,0,0,0,0,0,0,0,0,0,0,0,0,0,0,0,0,0,0,0,0,0\nfar_away:",
     "branch-just-out-of-range": "bra just_far\n" + ".db 0\n" * 128 + "just_far:",
     "indexed-immediate": "lda #0x12,x",
+    # a branch to the same offset in ANOTHER bank: the target is exactly 64 KiB (a multiple of it) of ROM away, far out of an 8-bit displacement's reach
+    "branch-to-the-same-offset-two-banks-up": "*=0x008000\nbra other_bank\n*=0x028002\nother_bank:\nnop",
+    "branch-to-a-numeric-target-in-another-bank": "*=0x008000\nbeq 0x028010",
     "undefined-code-block": "{{ no_such_block }}",
     "unmapped-address": "*=0x700000\nnop",
     "unmapped-address-beyond-the-24-bit-bus": "*=0x1008000\nnop",
